@@ -130,6 +130,24 @@ TraceSq == /\ IsEvent("sq")
                 \cup IF_(r.relw # SqRelativeTo(s, 0), {"relative_to-white"}) \cup IF_(r.relb # SqRelativeTo(s, 1), {"relative_to-black"})
                 \cup IF_(~Is(r.bb, {s}), {"bitboard"}) \cup IF_(r.idx # s \/ r.try_idx # s, {"index"}) \cup IF_(r.txt # SqName(s), {"display"})
      IN Obs(IF_(bad # {}, {<<"C19", "square-function", s, bad>>}))
+\* the named constants: Square::F6 is the square f6 (index, text, place in ALL), File::A..H, Rank::First..Eighth, pieces, colours
+TraceNames == /\ IsEvent("names")
+  /\ LET r == Recs[l]
+         up(c) == IF c >= 97 /\ c <= 122 THEN c - 32 ELSE c
+         sqOK(x) == /\ Len(x[1]) = 2 /\ x[2] \in Sq /\ x[1] = <<65 + FileOf(x[2]), 49 + RankOf(x[2])>>
+                    /\ x[3] = <<97 + FileOf(x[2]), 49 + RankOf(x[2])>> /\ x[4] = x[2]
+         flOK(x) == x[2] \in 0..7 /\ x[1] = <<65 + x[2]>> /\ x[3] = <<97 + x[2]>> /\ x[4] = x[2]
+         rkNames == <<<<70, 105, 114, 115, 116>>, <<83, 101, 99, 111, 110, 100>>, <<84, 104, 105, 114, 100>>, <<70, 111, 117, 114, 116, 104>>, <<70, 105, 102, 116, 104>>, <<83, 105, 120, 116, 104>>, <<83, 101, 118, 101, 110, 116, 104>>, <<69, 105, 103, 104, 116, 104>>>>   \* First .. Eighth as code points
+         pcNames == <<<<80, 97, 119, 110>>, <<75, 110, 105, 103, 104, 116>>, <<66, 105, 115, 104, 111, 112>>, <<82, 111, 111, 107>>, <<81, 117, 101, 101, 110>>, <<75, 105, 110, 103>>>>
+         pcChars == <<112, 110, 98, 114, 113, 107>>
+         clNames == <<<<87, 104, 105, 116, 101>>, <<66, 108, 97, 99, 107>>>>
+         bad == IF_(Len(r.square) # 64 \/ \E i \in 1..Len(r.square) : ~sqOK(r.square[i]) \/ r.square[i][2] # i - 1, {"Square"})
+                \cup IF_(Len(r.file) # 8 \/ \E i \in 1..Len(r.file) : ~flOK(r.file[i]) \/ r.file[i][2] # i - 1, {"File"})
+                \cup IF_(Len(r.rank) # 8 \/ \E i \in 1..Len(r.rank) : r.rank[i][2] # i - 1 \/ r.rank[i][1] # rkNames[i] \/ r.rank[i][3] # <<48 + i>> \/ r.rank[i][4] # i - 1, {"Rank"})
+                \cup IF_(Len(r.piece) # 6 \/ \E i \in 1..Len(r.piece) : r.piece[i][2] # i - 1 \/ r.piece[i][1] # pcNames[i] \/ r.piece[i][3] # <<pcChars[i]>> \/ r.piece[i][4] # i - 1, {"Piece"})
+                \cup IF_(Len(r.color) # 2 \/ \E i \in 1..Len(r.color) : r.color[i][2] # i - 1 \/ r.color[i][1] # clNames[i] \/ r.color[i][4] # i - 1, {"Color"})
+                \cup IF_(r.nums # <<64, 8, 8, 6, 2>>, {"NUM"})
+     IN Obs(IF_(bad # {}, {<<"C19", "named-constants", bad>>}))
 TraceSqNew == /\ IsEvent("sqnew")
   /\ LET r == Recs[l] IN Obs(IF_(\E k \in 0..7 : r.col[k+1] # SqOf(r.file, k), {<<"C19", "square-new", r.file, r.col>>}))
 TraceOffs == /\ IsEvent("offs")
@@ -186,7 +204,7 @@ TraceSl == /\ IsEvent("sl")
 
 Init == l = 1 /\ nviol = 0
 Next == \/ TraceBBOp \/ TraceBBIter \/ TraceBBSubsets \/ TraceBBFmt \/ TraceBBMacro \/ TraceBBConst \/ TracePM
-        \/ TraceSq \/ TraceSqNew \/ TraceOffs \/ TraceFR \/ TraceTxt
+        \/ TraceSq \/ TraceNames \/ TraceSqNew \/ TraceOffs \/ TraceFR \/ TraceTxt
         \/ TraceLeap \/ TraceBL \/ TracePQ \/ TraceSl
 Spec == Init /\ [][Next]_vars
 Accepted == IF TLCGet("stats").diameter - 1 = NRecs THEN PrintT(<<"ACCEPTED-LINES", NRecs>>)
